@@ -23,6 +23,7 @@ def cases(rng, tier):
     out += C.scenario_cases(rng, n // 6, tag='c05sc') + C.scenario_cases(rng, n // 6, style='pos1', tag='c05sd')
     # the call under test is made while another call of the same / a sibling callable is still running (recursion, re-entrancy)
     out += R.reentrant_cases(rng, n // 4, style='pos1', tag='c05re') + R.reentrant_cases(rng, n // 8, tag='c05rf')
+    out += R.wrapsof_cases(rng, n // 10, style='pos1', tag='c05wo')      # a callable that took over the __dict__ of a decorated one (functools.wraps)
     return out
 
 
